@@ -2,6 +2,7 @@ package main
 
 import (
 	"fmt"
+	"go/constant"
 	"sort"
 	"strings"
 
@@ -25,6 +26,14 @@ type condFormResult struct {
 func condForm(fn *ssa.Function, startBlock *ssa.BasicBlock, startIdx int,
 	classify func(cond string) (atom string, pol bool, ok bool),
 	outcome func(in ssa.Instruction, b *ssa.BasicBlock, idx int, prev *ssa.BasicBlock, val map[string]bool) string, maxAtoms int) (*condFormResult, error) {
+	return condFormWith(fn, startBlock, startIdx, classify, outcome, maxAtoms, nil)
+}
+
+// condFormWith: as condForm, with additional atoms that the outcome function evaluates itself (a returned boolean
+// expression has no branch of its own).
+func condFormWith(fn *ssa.Function, startBlock *ssa.BasicBlock, startIdx int,
+	classify func(cond string) (atom string, pol bool, ok bool),
+	outcome func(in ssa.Instruction, b *ssa.BasicBlock, idx int, prev *ssa.BasicBlock, val map[string]bool) string, maxAtoms int, extraAtoms []string) (*condFormResult, error) {
 
 	// discover atoms reachable in the region (walk all branches until an outcome)
 	atomSet := map[string]bool{}
@@ -47,12 +56,24 @@ func condForm(fn *ssa.Function, startBlock *ssa.BasicBlock, startIdx int,
 				return nil
 			}
 			if iff, ok := in.(*ssa.If); ok {
-				c, _ := normCond(iff.Cond)
-				a, _, ok := classify(c)
-				if !ok {
-					return fmt.Errorf("unrecognised condition %q in the region", c)
+				conds := []ssa.Value{iff.Cond}
+				if ph, _, ok := condPhi(b); ok {
+					// a short-circuit expression materialised as a value (switch case, assigned bool): its operands
+					conds = conds[:0]
+					for _, e := range ph.Edges {
+						if _, isConst := e.(*ssa.Const); !isConst {
+							conds = append(conds, e)
+						}
+					}
 				}
-				atomSet[a] = true
+				for _, cv := range conds {
+					c, _ := normCond(cv)
+					a, _, ok := classify(c)
+					if !ok {
+						return fmt.Errorf("unrecognised condition %q in the region", c)
+					}
+					atomSet[a] = true
+				}
 			}
 		}
 		for _, s := range b.Succs {
@@ -64,6 +85,9 @@ func condForm(fn *ssa.Function, startBlock *ssa.BasicBlock, startIdx int,
 	}
 	if err := discover(startBlock, startIdx); err != nil {
 		return nil, err
+	}
+	for _, a := range extraAtoms {
+		atomSet[a] = true
 	}
 	var atoms []string
 	for a := range atomSet {
@@ -83,6 +107,7 @@ func condForm(fn *ssa.Function, startBlock *ssa.BasicBlock, startIdx int,
 		}
 		b, idx := startBlock, startIdx
 		var prev *ssa.BasicBlock
+		prevSlot := 0
 		steps := 0
 		label := ""
 	walk:
@@ -99,7 +124,29 @@ func condForm(fn *ssa.Function, startBlock *ssa.BasicBlock, startIdx int,
 					break walk
 				}
 				if iff, ok := in.(*ssa.If); ok {
-					c, cpol := normCond(iff.Cond)
+					cv, flip := ssa.Value(iff.Cond), false
+					if ph, neg, ok := condPhi(b); ok {
+						pi := 0
+						if prev != nil {
+							pi = predSlot(prev, prevSlot, b)
+						}
+						if pi == 0 {
+							return nil, fmt.Errorf("region starts inside a materialised short-circuit expression")
+						}
+						cv, flip = ph.Edges[pi-1], neg
+					}
+					if k, ok := cv.(*ssa.Const); ok && k.Value != nil && k.Value.Kind() == constant.Bool {
+						if constant.BoolVal(k.Value) != flip {
+							next = 0
+						} else {
+							next = 1
+						}
+						continue
+					}
+					c, cpol := normCond(cv)
+					if flip {
+						cpol = !cpol
+					}
 					a, apol, _ := classify(c)
 					// canonical cond c is true iff atom == apol; branch cond true iff c == cpol
 					cTrue := val[a] == apol
@@ -117,7 +164,7 @@ func condForm(fn *ssa.Function, startBlock *ssa.BasicBlock, startIdx int,
 				}
 				next = 0
 			}
-			prev = b
+			prev, prevSlot = b, next
 			b, idx = b.Succs[next], 0
 		}
 		res.Table[strings.Join(parts, ",")] = label
